@@ -373,7 +373,11 @@ def run_check(check_id, tier, base_seed, workers=None, runs=None, out=sys.stdout
     for sig, vs in new_sigs[: check.max_reports]:
         v = vs[0]
         try:
-            trace, n_rep = minimise(check, v, budget_s=check.minimise_budget_s)
+            if hasattr(check, "minimise_trace"):
+                trace = check.minimise_trace(v["config"], v["trace"], v["signature"])
+                n_rep = getattr(check, "last_minimise_replays", 0)
+            else:
+                trace, n_rep = minimise(check, v, budget_s=check.minimise_budget_s)
             path, obj = write_replay(check, v, trace)
             rep, same = fresh_interpreter_replay(path)
         except Exception:
